@@ -30,6 +30,14 @@ CHECKS = {
         "Trusted: E1's construction invariant for must-accept; definiteness of an injected error (closed expected type with a different head former at a checked position).",
         "DESIGN.md section 5, C03",
     ),
+    "C10": (
+        "crash/hang/location monitor: catch_unwind around CompilerSession::analyze and the CLI's diagnostic renderer in process, the real `zydeco check` out of process (exit status, signal, CPU budget), span-in-file check of every report",
+        "Six input families (random bytes, token soups with extreme literals, token/byte mutations of every repository source, grammar-directed parse-valid terms with "
+        "every metadata form, generated programs with injected errors, mutated providers/companions) are pushed through the whole front end; any panic, abort, "
+        "exit status outside {0,1}, CPU time over budget, or report location outside its file is a violation. Exploration; 'never loops' is a CPU-budget claim.",
+        "Trusted: nesting depth of inputs bounded (<= 64) as the property allows; the shard watchdog's CPU accounting.",
+        "DESIGN.md section 5, C10",
+    ),
     "C08": (
         "invariant monitor over zydeco_utils::graph on every digraph with <=4 nodes (exhaustive) against transitive-closure SCCs, three drain protocols; language-level permutation metamorphism",
         "Every adjacency matrix on 1..4 nodes incl. self-loops and target-only nodes is run through Kosaraju + top()/release() three ways and through obliviate/keep_only; "
